@@ -227,7 +227,14 @@ def targets(ctx):
         fb = hb[0]
         c = cm.eq_compares(fb, CLUSTER)[0]
         somes = cm.agg_blocks(fb, "core::option::Option", "Some")
-        if R.anchor(somes, "bcast-some", "Some(addr) in the target filter"):
+        if not somes and fb.ty(0) == "bool":
+            # `.filter(|m| ..)` form: the closure answers `true` to keep the member
+            is_eq = c.name() == "eq"
+            _, rets_diff = flow.eval_guard(fb, {c.bb: (not is_eq)})
+            _, rets_same = flow.eval_guard(fb, {c.bb: is_eq})
+            R.require(rets_diff == {False} and rets_same != {False}, "bcast-some-iff-equal", c.where(), "the target filter keeps a member only if it is of the same cluster (different -> %s, same -> %s)" % (sorted(map(str, rets_diff)), sorted(map(str, rets_same))),
+                      fail_msg="the broadcast target filter keeps a member of a different cluster (returns %s when the cluster ids differ)" % sorted(map(str, rets_diff)))
+        elif R.anchor(somes, "bcast-some", "Some(addr) in the target filter"):
             ok, d = cm.effect_only_when_equal(fb, c, somes)
             R.require(ok, "bcast-some-iff-equal", c.where(), "Some(addr) is produced only for same-cluster members %s" % d,
                       fail_msg="the broadcast target filter yields an address for a member of a different cluster: %s" % d)
